@@ -187,7 +187,9 @@ def rule_c(ctx, ix):
         de = False
         for lp2 in [x for x in body_stmts(undo.node) if isinstance(x, ast.For)]:
             for x in ast.walk(lp2):
-                if isinstance(x, ast.If) and unparse(x.test).replace(' ', '').endswith('notin%s.old_states' % u) and \
+                conj = x.test.values if isinstance(x, ast.If) and isinstance(x.test, ast.BoolOp) and isinstance(x.test.op, ast.And) \
+                    else ([x.test] if isinstance(x, ast.If) else [])
+                if any(unparse(cj).replace(' ', '').endswith('notin%s.old_states' % u) for cj in conj) and \
                         any(call_name(cc) == 'delete' for cc in calls_in(x)):
                     de = True
         ctx.ob(R, undo.construct, 'undo deletes subsets that are absent from the snapshot', de,
